@@ -2,4 +2,4 @@ From Coq Require Import QArith Reals Qreals.
 From TT Require Import Num.
 Open Scope R_scope.
 Definition NumR : Num R :=
-  mkNum R 0 1 Rplus Rminus Rmult Rdiv Ropp Q2R exp ln sqrt.
+  mkNum R 0 1 Rplus Rminus Rmult Rdiv Ropp Q2R exp ln sqrt Rmax.
